@@ -6,7 +6,10 @@
 From mathcomp Require Import all_ssreflect all_algebra.
 From mathcomp Require Import polyorder ring.
 Require Import MPSV.Roots.NewtonDisc MPSV.Roots.Isolate.
-Require Import MPSV.Skel.SkelDefs MPSV.Skel.SkelProofs MPSV.Skel.Deflate MPSV.Skel.IsolatedOne.
+Require Import MPSV.Skel.SkelDefs MPSV.Skel.SkelProofs MPSV.Skel.Deflate MPSV.Skel.IsolatedOne MPSV.Skel.SkelIncl.
+(* the event-trace acceptor lives in stdlib Q / Reals: required, not imported (its names are used qualified) *)
+Require MPSV.Skel.TraceDefs MPSV.Skel.TraceProofs.
+Require Coq.Lists.List Coq.Reals.Rdefinitions Coq.QArith.QArith_base.
 Import Order.TTheory GRing.Theory Num.Theory.
 Local Open Scope ring_scope.
 
@@ -98,6 +101,70 @@ Theorem C01_isolated_exactly_one_partial :
     forall d, d \in iso -> count (in_disc d) rs = 1%N.
 Proof. exact isolated_exactly_one_mixed. Qed.
 Print Assumptions C01_isolated_exactly_one_partial.
+
+(* (1') Move-and-enlarge in general form: a disc that contains D(z, r) keeps every point of D(z, r). *)
+Theorem C01_disc_inclusion :
+  forall (C : numClosedFieldType) (z z' w r r' : C), `|z - w| <= r -> `|z - z'| + r <= r' -> `|z' - w| <= r'.
+Proof. exact disc_incl. Qed.
+Print Assumptions C01_disc_inclusion.
+
+(* (6) The move-and-enlarge class of the trace acceptor IS a run of the skeleton: whenever the new disc (z', r') of root
+   i contains the disc (z, r) it held, the two steps SAberth i (z - z'), SEnlarge i (r' - r - |z - z'|) are enabled for
+   EVERY polynomial p (no Newton contract is involved) and turn the state into the one with the new disc. *)
+Theorem C01_incl_is_skeleton_run :
+  forall (C : numClosedFieldType) (p : {poly C}) (st : state C) (i : nat) (z z' r r' : C) (s : rstatus),
+    (i < size st)%N -> nth (dflt C) st i = Approx z (Some r) s -> `|z - z'| + r <= r' ->
+    valid_run p st (incl_steps i z z' r r') /\
+    foldl (@apply_step C) st (incl_steps i z z' r r') = set_nth (dflt C) st i (Approx z' (Some r') s).
+Proof. exact incl_is_skeleton_run. Qed.
+Print Assumptions C01_incl_is_skeleton_run.
+
+(* (7) EVENT TRACES (Skel/TraceDefs.v, extracted to bin/trc and run on the traces of the hooked build).  tr = the discs
+   one approximation holds at every Newton entry / exit and when it is returned (exact rationals; None = no finite
+   radius).  `obligations None tr` = the discs whose radius is FRESH (not containing the disc held before);
+   `claims tr` = every disc with a finite radius; `holds Root d` = the closed disc d contains a point of Root (real
+   plane).  If every fresh-radius obligation contains a root, every disc held along the trace does - and conversely
+   (the obligations are observed discs). *)
+Theorem C01_trace_sound :
+  forall (Root : Rdefinitions.R * Rdefinitions.R -> Prop) (tr : list TraceDefs.obs),
+    List.Forall (TraceProofs.holds Root) (TraceDefs.obligations None tr) ->
+    List.Forall (TraceProofs.holds Root) (TraceDefs.claims tr).
+Proof. exact TraceProofs.trace_sound. Qed.
+Print Assumptions C01_trace_sound.
+
+Theorem C01_trace_obligations_observed :
+  forall (tr : list TraceDefs.obs) (prev : option TraceDefs.disc) (d : TraceDefs.disc),
+    List.In d (TraceDefs.obligations prev tr) -> List.In d (TraceDefs.claims tr).
+Proof. exact TraceProofs.obligations_observed. Qed.
+Print Assumptions C01_trace_obligations_observed.
+
+(* the decision procedure `incl` (squares of rationals, no square root) is sound for closed discs of the real plane,
+   hence an improve_root step accepted by improve_step_ok carries the claim of its Newton disc to the final disc *)
+Theorem C01_trace_incl_sound :
+  forall (d d' : TraceDefs.disc), TraceDefs.incl d d' = true ->
+    forall w, TraceProofs.in_disc d w -> TraceProofs.in_disc d' w.
+Proof. exact TraceProofs.incl_sound. Qed.
+Print Assumptions C01_trace_incl_sound.
+
+Theorem C01_improve_step_sound :
+  forall (Root : Rdefinitions.R * Rdefinitions.R -> Prop) (dN dF : TraceDefs.disc),
+    TraceDefs.improve_step_ok dN dF = true -> TraceProofs.holds Root dN -> TraceProofs.holds Root dF.
+Proof. exact TraceProofs.improve_step_sound. Qed.
+Print Assumptions C01_improve_step_sound.
+
+(* non-vacuity of (7): a trace with a first claim, a Newton radius that shrinks (fresh), an Aberth move that is
+   move-and-enlarge, and a returned disc; two obligations out of four claims *)
+Example C01_ex_trace :
+  let q := fun (n d : nat) => QArith_base.Qmake (BinInt.Z.of_nat n) (BinPos.Pos.of_nat d) in
+  let tr := [:: TraceDefs.Obs TraceDefs.KEntry (q 2%N 1%N) (q 0%N 1%N) None;
+                TraceDefs.Obs TraceDefs.KExit (q 2%N 1%N) (q 0%N 1%N) (Some (q 3%N 2%N));
+                TraceDefs.Obs TraceDefs.KEntry (q 5%N 4%N) (q 0%N 1%N) (Some (q 9%N 4%N));
+                TraceDefs.Obs TraceDefs.KExit (q 5%N 4%N) (q 0%N 1%N) (Some (q 1%N 2%N));
+                TraceDefs.Obs TraceDefs.KFinal (q 1%N 1%N) (q 0%N 1%N) (Some (q 3%N 4%N))] in
+  List.map fst (TraceDefs.walk None tr)
+    = [:: TraceDefs.CNoClaim; TraceDefs.CFirst; TraceDefs.CMoveEnlarge; TraceDefs.CFresh; TraceDefs.CMoveEnlarge]
+  /\ List.length (TraceDefs.obligations None tr) = 2%N /\ List.length (TraceDefs.claims tr) = 4%N.
+Proof. by vm_compute. Qed.
 
 (* ---- non-vacuity: the hypotheses are satisfiable by concrete non-trivial states ---- *)
 Section Examples.
